@@ -17,6 +17,8 @@ package main
 //@ ghost decoded bool
 //@ ghost valid bool
 //@ ghost stored bool
+//@ ghost wrapped bool
+//@ ghost answered bool
 //@ ghost ended bool
 //@ ghost weekOK bool
 //@ ghost cfgOK bool
@@ -42,7 +44,18 @@ package main
 //@   at call Status#1: assert $stored
 //@   at call Status#2: assert arg1 == 405
 //@   at call Status#2: assert r.Method != "POST"
-//@   modifies heap, $decoded, $stored, $valid, $cfgOK, $weekOK, $ended
+// No input produces a 5xx answer: an error that is not wrapped with a 4xx status
+// (the content package answers 500 for those) is returned only once the storage
+// backend has been reached (its failure, not the request's) or from writing the
+// answer itself.
+//@   requires !$stored && !$wrapped && !$answered
+//@   at call Error#1: after ghost $wrapped = true
+//@   at call Error#2: after ghost $wrapped = true
+//@   at call Error#3: after ghost $wrapped = true
+//@   at call Status#1: after ghost $answered = true
+//@   at call Status#2: after ghost $answered = true
+//@   ensures result != nil ==> $wrapped || $stored || $answered
+//@   modifies heap, $decoded, $stored, $valid, $cfgOK, $weekOK, $ended, $wrapped, $answered
 
 // validate accepts a report only if the week is a date, the config version is
 // a semantic version, X is not 0 and every program build, counter and stack
